@@ -154,6 +154,40 @@ def isSubpath (c : Cfg) (folder target : Str) (strict : Bool) : SubRes :=
       (if isPrefix ffc tfc then .rel (tf.drop ff.length) else .no)
     else .no
 
+/-- provider.py:549-557 `is_subpath` called with `None` for the folder or the target (the engine does
+    this for entries without a path): `not folder or not target` is the first branch. -/
+def isSubpathOpt (c : Cfg) (folder target : Option Str) (strict : Bool) : SubRes :=
+  match folder, target with
+  | some f, some t => isSubpath c f t strict
+  | _, _ => .no
+
+/-- provider.py:583-591 `is_subpath_of_root(target, strict)`: `is_subpath(self._root_path, …)`;
+    the root path is `None` until `set_root` ran. -/
+def isSubpathOfRoot (c : Cfg) (root target : Option Str) (strict : Bool) : SubRes :=
+  isSubpathOpt c root target strict
+
+/-- An argument of `join(*paths)`: a string, a (nested) list/tuple of arguments, or `None`. -/
+inductive JArg where
+  | str (s : Str)
+  | seq (l : List JArg)
+  | none
+
+mutual
+/-- provider.py:455-473 `__normalize_path_list`, the expansion of included iterables: strings are
+    kept (blank ones are dropped later by `normList`), truthy iterables are expanded in place,
+    falsy non-strings (`None`, `[]`, `()`) are skipped. -/
+def JArg.flatten : JArg → List Str
+  | .str s => [s]
+  | .seq l => flattenArgs l
+  | .none => []
+def flattenArgs : List JArg → List Str
+  | [] => []
+  | a :: as => a.flatten ++ flattenArgs as
+end
+
+/-- provider.py:493-509 `join(*paths)` on arbitrary (nested) arguments. -/
+def joinArgs (c : Cfg) (args : List JArg) : Str := join c (flattenArgs args)
+
 /-- provider.py:593-598 `replace_path`. -/
 def replacePath (c : Cfg) (path fromDir toDir : Str) : Except PErr Str :=
   match isSubpath c fromDir path false with
